@@ -18,7 +18,7 @@ def cfg_for(lf: int, tier: str) -> dict:
         cap = {2: 5, 3: 6}.get(lf, cap)
     return {
         'lf': lf, 'cap': cap, 'maxins': min(cap, lf + 1), 'nl_classes': ['n', 'm'],
-        'maxnl': 1 if lf >= 4 else 2, 'oracles': ['pos'], 'update': True, 'update_classes': ['x', 'n', 'm', 'e'], 'empty': True,
+        'maxnl': 1 if lf >= 4 else 2, 'oracles': ['pos'], 'update': True, 'update_classes': ['x', 'n', 'm', 'e', 'k'], 'empty': True,
     }
 
 
@@ -34,7 +34,7 @@ def run_case(case: dict) -> core.CaseResult:
 def main(run: core.Run) -> None:
     tier = run.tier
     lfs = [2, 3] if tier == 'quick' else [2, 3, 4]
-    run.rule = ('fixpoint BFS over the real TokenStore with token classes x / "\\n" / "a\\nbc" / "" : transition = one '
+    run.rule = ('fixpoint BFS over the real TokenStore with token classes x / "\\n" / "a\\nbc" / "" / "a\\n\\nb" (the last one only through updates): transition = one '
                 'splice/insert/remove/replace/re-insertion or one raw_text update of one token; non-trivial = distinct '
                 'canonical post-states that differ from their pre-state; oracle = (line, column, ordinal) of every token recomputed from the '
                 'concatenated text')
